@@ -71,8 +71,9 @@ _ENUM_PRISTINE = {
 
 def reset_globals(contraction=True, seed=0):
     """Bring every piece of hidden global library state to a defined value."""
-    CompositeEnvelope._containers.clear()
-    CompositeEnvelope._instances.clear()
+    # re-bind (never clear: a live World may own the currently bound dictionaries)
+    CompositeEnvelope._containers = {}
+    CompositeEnvelope._instances = {}
     C = Config()
     C.set_seed(seed)
     C.set_contraction(contraction)
